@@ -347,13 +347,51 @@ def _r10e(rep):
     # kernel accumulates value * weights[i] per q and sums rows serially
     tu = cast.load(CF)
     kfn = tu.functions["phpy_get_thermal_properties"]
-    acc = [x for x in cast.walk(kfn) if x.get("kind") == "CompoundAssignOperator" and x.get("opcode") == "+="]
-    texts = [cast.text(x) for x in acc]
-    wanted = ["get_free_energy(temperatures[j], f, classical) * weights[i]", "get_entropy(temperatures[j], f, classical) * weights[i]", "get_heat_capacity(temperatures[j], f, classical) * weights[i]"]
-    slots = ["tp[i * num_temp * 3 + j * 3]", "tp[i * num_temp * 3 + j * 3 + 1]", "tp[i * num_temp * 3 + j * 3 + 2]"]
-    ok = all(any(t == f"{s} += {wv}" for t in texts) for s, wv in zip(slots, wanted))
-    rep.instance("R10e", CF, "phpy_get_thermal_properties", core.norm(" ; ".join(texts)), ok,
-                 "kernel does not accumulate F, S, Cv * weights[i] into columns 0, 1, 2", line=tu.line(kfn))
+    # symbolic execution of the innermost guarded block: each tp slot grows by <thermal function>(T_j, f) * weights[i]
+    ifs = [x for x in cast.walk(kfn) if x.get("kind") == "IfStmt" and any(y.get("kind") == "CompoundAssignOperator" for y in cast.walk(x))]
+    if not ifs:
+        raise AnalysisError("phpy_get_thermal_properties: guarded accumulation block vanished")
+    blk = cast.kids(ifs[0])[1]
+    syms = {}
+
+    def sub_hook(t, e, tr, env):
+        return syms.setdefault(t, sp.Symbol(t))
+
+    def call_hook(nm, args, tr, env):
+        if nm in ("get_free_energy", "get_entropy", "get_heat_capacity"):
+            return sp.Function(nm)(*[tr.expr(a, env) for a in args])
+        return None
+
+    names = {n: sp.Symbol(n) for n in ("i", "j", "k", "f", "classical", "num_temp", "num_bands", "cutoff_frequency")}
+    ctr = symalg.CTranslator(names, call_hook=call_hook, sub_hook=sub_hook, where="phpy_get_thermal_properties")
+    # locals assigned before the block inside the loop body (f = freqs[...]; a weight copied into a local) are inlined
+    env = {}
+    loops = [x for x in cast.walk(kfn) if x.get("kind") == "ForStmt" and any(y is ifs[0] for y in cast.walk(x))]
+    for lp in loops:
+        for st in cast.kids(cast.kids(lp)[-1]) if cast.kids(lp)[-1].get("kind") == "CompoundStmt" else []:
+            if st.get("kind") == "BinaryOperator" and st.get("opcode") == "=" and cast.strip(cast.kids(st)[0]).get("kind") == "DeclRefExpr":
+                nm = cast.strip(cast.kids(st)[0])["referencedDecl"]["name"]
+                if nm != "f":
+                    env[nm] = ctr.expr(cast.kids(st)[1], env)
+    out = []
+    ctr._block([blk], env, [], out)
+    w = sp.Symbol("weights[i]")
+    T = sp.Symbol("temperatures[j]")
+    col_fn = {0: "get_free_energy", 1: "get_entropy", 2: "get_heat_capacity"}
+    seen_cols = {}
+    for key, val in env.items():
+        if not key.startswith("tp["):
+            continue
+        idx = sp.sympify(key[3:-1], locals={n: sp.Symbol(n) for n in ("i", "j", "num_temp")})
+        base = sp.expand(idx - (sp.Symbol("i") * sp.Symbol("num_temp") * 3 + sp.Symbol("j") * 3))
+        delta = sp.expand(val - syms.get(key, sp.Symbol(key)))
+        q = sp.simplify(delta / w)
+        good = base.is_Integer and int(base) in col_fn and not q.has(w) and isinstance(q, sp.Function) and q.func.__name__ == col_fn[int(base)] and q.args[0] == T and q.args[1] == sp.Symbol("f")
+        seen_cols[str(base)] = (good, key, str(delta))
+    ok = len(seen_cols) == 3 and all(g for g, _, _ in seen_cols.values())
+    badtxt = "; ".join(f"{k} += {d}" for g, k, d in seen_cols.values() if not g)
+    rep.instance("R10e", CF, "phpy_get_thermal_properties", "columns 0,1,2 of tp[i, j, :] grow by F, S, Cv(T_j, f) * weights[i]", ok,
+                 f"kernel does not accumulate F, S, Cv * weights[i] into columns 0, 1, 2 of row (i, j): {badtxt or sorted(seen_cols)}", line=tu.line(kfn))
     # units
     u = symalg.fold_constants("phonopy/units.py")
     for name, val in (("Kb", u["kb_J"] / u["EV"]), ("THzToEv", u["PlanckConstant"] * 1e12), ("EvTokJmol", u["EV"] / 1000 * u["Avogadro"])):
@@ -427,6 +465,9 @@ def selftest():
     b("C route adds ZPE twice", PY, "fe = props[:, 0] * EvTokJmol + self._zero_point_energy", "fe = props[:, 0] * EvTokJmol + 2 * self._zero_point_energy", "R10e", "fe =")
     b("entropy not scaled to J on the C route", PY, "entropy = props[:, 1] * EvTokJmol * 1000", "entropy = props[:, 1] * EvTokJmol", "R10e", "entropy =")
     b("kernel guard admits T = 0", CF, "if (temperatures[j] > 0 && f > cutoff_frequency) {", "if (f > cutoff_frequency) {", "R10f", "kernel guard")
+    b("kernel entropy column forgets the weight", CF, "                        get_entropy(temperatures[j], f, classical) * weights[i];", "                        get_entropy(temperatures[j], f, classical);", "R10e", "phpy_get_thermal_properties")
+    b("kernel columns 1 and 2 swapped", CF, "                        get_entropy(temperatures[j], f, classical) * weights[i];", "                        get_heat_capacity(temperatures[j], f, classical) * weights[i];", "R10e", "phpy_get_thermal_properties")
+    n("kernel weight factor written first", CF, "                        get_entropy(temperatures[j], f, classical) * weights[i];", "                        weights[i] * get_entropy(temperatures[j], f, classical);")
     b("KB constant drifts", CF, "#define KB 8.6173382568083159E-05", "#define KB 8.6173303E-05", "R10e", "KB")
     b("python evaluator uses mode_F at T = 0", PY, "        if t > 0:\n            free_energy = self._calculate_thermal_property(mode_F, t)", "        if t >= 0:\n            free_energy = self._calculate_thermal_property(mode_F, t)", "R10f", "run_free_energy")
     n("heat capacity with x*x", PY, "        return Kb * x**2 * expVal / (1.0 - expVal) ** 2", "        return Kb * x * x * expVal / ((1.0 - expVal) * (1.0 - expVal))")
